@@ -508,6 +508,25 @@ func TestC12_DatagramBoundaries(t *testing.T) {
 		// a chain of writes, each issued from the completion of the previous one, to varying destinations and from fresh
 		// buffers: after 32 nested completions the next write is handed to the poller and must still go where it was addressed
 		if problem == "" && rapid.IntRange(0, 2).Draw(rt, "writeChain") == 0 {
+			// (with or without a read of the same object waiting in the poller meanwhile: the deferred write must be
+			// registered next to it)
+			if !reading && rapid.Bool().Draw(rt, "readPendingDuringWriteChain") {
+				total := 0
+				for _, q := range queues {
+					total += len(q)
+				}
+				if total == 0 {
+					buf := make([]byte, 64)
+					reading = true
+					rd.asyncRead(buf, func(err error, n int, from string) {
+						reading = false
+						if err == nil {
+							problem = fmt.Sprintf("a read completed with %d bytes from %s although nothing was sent", n, from)
+						}
+					})
+					trace = append(trace, "read-armed-before-the-write-chain")
+				}
+			}
 			L := rapid.IntRange(34, 80).Draw(rt, "chainLen")
 			dests := make([]int, L)
 			sizes := make([]int, L)
